@@ -7,6 +7,7 @@ CONSTANTS
   NRand = 0
   KeepHist = FALSE
   KF_PowGrandparentBits = FALSE
+  Sides = {}
 CONSTRAINT Book
 POSTCONDITION Post
 CHECK_DEADLOCK FALSE
